@@ -573,7 +573,7 @@ def c20_program(args):
                 e = fault.split("-")[2]
                 full = ["strace", "-f", "-qq", "-o", "/dev/null", "-P", path, "-e", "trace=openat", "-e", "inject=openat:error=%s" % e] + full
             try:
-                r = subprocess.run(full, stdout=subprocess.PIPE, stderr=subprocess.PIPE, env=ENV, timeout=60)
+                r = subprocess.run(full, stdout=subprocess.PIPE, stderr=subprocess.PIPE, env=ENV, timeout=300)
                 rc = r.returncode
             except subprocess.TimeoutExpired:
                 res["harness"].append("tuftool timed out: %s" % cmd)
